@@ -9,6 +9,7 @@ package main
 //        cancel S                   cancel ctx_S
 //        unlock S                   Unlock(key_S, id_S) — only by a caller whose Lock returned an id (may be stale)
 //        unlockraw K X              Unlock(K, "bogus-X")
+//        unlockx S K                Unlock(K, id_S) with S a caller of another key (foreign but genuine id)
 //        expire S                   let S's TTL watchdog (short TTL, stopped at the hook) call remove
 //        gwttl T | gwcancel         gateway Lock/Unlock handlers (TTL floor, WithoutCancel)
 // reply: <event> q=[S…] g=[S…] h=[S…]   queue, callers whose ready channel is closed, callers that
@@ -36,7 +37,8 @@ import (
 
 type c14Event struct {
 	name  string
-	id    string
+	id    string // queue pointer + raw id: lock ids need not be unique across keys
+	raw   string
 	flag  bool
 	at    time.Time
 	panic string
@@ -45,7 +47,8 @@ type c14Event struct {
 type c14Sess struct {
 	n         int
 	key       string
-	id        string
+	id        string // the lock id as the lock package knows it
+	qid       string // queue pointer + id (what hook events are matched on)
 	short     bool
 	cancel    context.CancelFunc
 	held      bool // stopped at the lock.select hook
@@ -55,6 +58,7 @@ type c14Sess struct {
 	expired   bool // `expire` already used
 	released  bool // C28: the caller's own unlock / TTL took it out of the queue
 	hold      chan struct{}
+	fin       chan struct{} // closed when the Lock call has returned
 }
 
 // c14World owns one lock instance and the hook handler state of one case.
@@ -65,11 +69,13 @@ type c14World struct {
 	backlog  []c14Event
 	known    map[string]bool          // ids enqueued in this case
 	holdNext bool                     // stop the next caller at lock.select
+	holdGotq bool                     // stop the next caller between getQueue and enqueue
 	holds    map[string]chan struct{} // id → release channel of a caller held at lock.select
 	ttlWait  map[string]chan struct{} // id → release channel of a watchdog stopped at lock.ttl
 	ttlAt    map[string]time.Time     // id → when its watchdog's timer fired
 	sess     []*c14Sess
-	byID     map[string]*c14Sess
+	byID     map[string]*c14Sess // by qid
+	byKey    map[string]*c14Sess // by key + "|" + raw id
 	wg       sync.WaitGroup
 	timeout  time.Duration
 	broken   bool // a step timed out: the rest of the case is not executed
@@ -91,7 +97,7 @@ func (w *c14World) gate(op string) (string, bool) {
 
 func c14NewWorld(lk lock.Lock) *c14World {
 	return &c14World{lk: lk, events: make(chan c14Event, 4096), known: map[string]bool{},
-		holds: map[string]chan struct{}{}, ttlWait: map[string]chan struct{}{}, ttlAt: map[string]time.Time{}, byID: map[string]*c14Sess{},
+		holds: map[string]chan struct{}{}, ttlWait: map[string]chan struct{}{}, ttlAt: map[string]time.Time{}, byID: map[string]*c14Sess{}, byKey: map[string]*c14Sess{},
 		timeout: 3 * time.Second}
 }
 
@@ -100,19 +106,30 @@ func (w *c14World) handler(name string, args ...any) {
 	if !strings.HasPrefix(name, "lock.") || len(args) < 2 {
 		return
 	}
-	id, _ := args[1].(string)
-	ev := c14Event{name: name, id: id, at: time.Now()}
+	raw, _ := args[1].(string)
+	id := fmt.Sprintf("%p|%s", args[0], raw)
+	ev := c14Event{name: name, id: id, raw: raw, at: time.Now()}
 	if len(args) > 2 {
 		ev.flag, _ = args[2].(bool)
 	}
 	w.mu.Lock()
-	if name == "lock.enq" {
+	if name == "lock.enq" || (name == "lock.gotq" && w.holdGotq) {
 		w.known[id] = true
+		w.known["raw|"+raw] = true
 	}
-	known := w.known[id]
+	// (a removal attempt can reach a queue object the caller was never in: the key's queue may have been
+	//  retired and replaced since — such events are matched on the lock id alone)
+	known := w.known[id] || (name == "lock.rm" && w.known["raw|"+raw])
 	var block chan struct{}
 	switch {
 	case !known:
+	case name == "lock.gotq" && w.holdGotq:
+		w.holdGotq = false
+		block = make(chan struct{})
+		w.holds[id] = block
+	case name == "lock.gotq":
+		w.mu.Unlock()
+		return
 	case name == "lock.select" && w.holdNext:
 		w.holdNext = false
 		block = make(chan struct{})
@@ -168,8 +185,36 @@ func (w *c14World) wait(want func(c14Event) bool) (c14Event, bool) {
 	}
 }
 
+// quiet reports whether an event accepted by want arrives within d; its absence is a normal outcome
+// (the case is not marked broken).
+func (w *c14World) quiet(want func(c14Event) bool, d time.Duration) bool {
+	for i, ev := range w.backlog {
+		if want(ev) {
+			w.backlog = append(w.backlog[:i], w.backlog[i+1:]...)
+			return true
+		}
+	}
+	deadline := time.After(d)
+	for {
+		select {
+		case ev := <-w.events:
+			if want(ev) {
+				return true
+			}
+			w.backlog = append(w.backlog, ev)
+		case <-deadline:
+			return false
+		}
+	}
+}
+
 func (w *c14World) waitFor(name, id string) (c14Event, bool) {
 	return w.wait(func(e c14Event) bool { return e.name == name && e.id == id })
+}
+
+// waitForRaw matches on the lock id alone (gateway calls: the queue is not known beforehand).
+func (w *c14World) waitForRaw(name, raw string) (c14Event, bool) {
+	return w.wait(func(e c14Event) bool { return e.name == name && e.raw == raw })
 }
 
 // waitTTL waits until id's watchdog timer has fired (the watchdog is then stopped at the hook).
@@ -193,8 +238,8 @@ func (w *c14World) waitTTL(id string) (time.Time, bool) {
 	}
 }
 
-func (w *c14World) num(id string) string {
-	if s := w.byID[id]; s != nil {
+func (w *c14World) num(key, id string) string {
+	if s := w.byKey[key+"|"+id]; s != nil {
 		return strconv.Itoa(s.n)
 	}
 	return "?"
@@ -205,12 +250,12 @@ func (w *c14World) state(key string) string {
 	ids, ready, _ := lock.VerifSnapshot(w.lk, key)
 	var q, g, h []string
 	for i, id := range ids {
-		q = append(q, w.num(id))
+		q = append(q, w.num(key, id))
 		if ready[i] {
-			g = append(g, w.num(id))
+			g = append(g, w.num(key, id))
 		}
-		if s := w.byID[id]; s != nil && s.acquired {
-			h = append(h, w.num(id))
+		if s := w.byKey[key+"|"+id]; s != nil && s.acquired {
+			h = append(h, w.num(key, id))
 		}
 	}
 	return fmt.Sprintf("q=[%s] g=[%s] h=[%s]", strings.Join(q, ","), strings.Join(g, ","), strings.Join(h, ","))
@@ -220,11 +265,11 @@ func (w *c14World) state(key string) string {
 func (w *c14World) settle(key string) string {
 	ids, ready, _ := lock.VerifSnapshot(w.lk, key)
 	for i, id := range ids {
-		s := w.byID[id]
+		s := w.byKey[key+"|"+id]
 		if s == nil || !ready[i] || s.acquired || s.held || s.gone {
 			continue
 		}
-		if _, ok := w.waitFor("lock.acq", id); !ok {
+		if _, ok := w.waitFor("lock.acq", s.qid); !ok {
 			return " stuck=" + strconv.Itoa(s.n)
 		}
 		s.acquired = true
@@ -234,7 +279,7 @@ func (w *c14World) settle(key string) string {
 
 func (w *c14World) startLock(key string, ttl time.Duration, short, hold bool) (*c14Sess, string) {
 	ctx, cancel := context.WithCancel(context.Background())
-	s := &c14Sess{n: len(w.sess) + 1, key: key, short: short, cancel: cancel}
+	s := &c14Sess{n: len(w.sess) + 1, key: key, short: short, cancel: cancel, fin: make(chan struct{})}
 	w.sess = append(w.sess, s)
 	w.mu.Lock()
 	w.holdNext = hold
@@ -247,15 +292,17 @@ func (w *c14World) startLock(key string, ttl time.Duration, short, hold bool) (*
 				w.events <- c14Event{name: "panic", panic: fmt.Sprint(r)}
 			}
 		}()
+		defer close(s.fin)
 		_, _ = w.lk.Lock(ctx, key, ttl)
 	}()
 	ev, ok := w.wait(func(e c14Event) bool { return e.name == "lock.enq" })
 	if !ok {
 		return s, "unexpected-" + ev.name
 	}
-	s.id = ev.id
-	w.byID[s.id] = s
-	if ev, ok = w.waitFor("lock.select", s.id); !ok {
+	s.id, s.qid = ev.raw, ev.id
+	w.byID[s.qid] = s
+	w.byKey[key+"|"+s.id] = s
+	if ev, ok = w.waitFor("lock.select", s.qid); !ok {
 		return s, "unexpected-" + ev.name
 	}
 	granted := false // read from the channel state, not from the hook argument
@@ -270,13 +317,78 @@ func (w *c14World) startLock(key string, ttl time.Duration, short, hold bool) (*
 		s.held = true
 		return s, "held"
 	case granted:
-		if ev, ok = w.waitFor("lock.acq", s.id); !ok {
+		if ev, ok = w.waitFor("lock.acq", s.qid); !ok {
 			return s, "unexpected-" + ev.name
 		}
 		s.acquired = true
 		return s, "acq"
 	}
 	return s, "wait"
+}
+
+// returned waits until the session's Lock call has returned (the cancel branch ran to its end);
+// deliberately not tied to a hook inside the removal code.
+func (w *c14World) returned(s *c14Sess) bool {
+	select {
+	case <-s.fin:
+		return true
+	case <-time.After(w.timeout):
+		if !w.broken {
+			w.broken = true
+			c14BrokenCases++
+		}
+		return false
+	}
+}
+
+// startLockAtGotq starts a Lock call and stops it between getQueue and enqueue.
+func (w *c14World) startLockAtGotq(key string, ttl time.Duration, short bool) (*c14Sess, string) {
+	ctx, cancel := context.WithCancel(context.Background())
+	s := &c14Sess{n: len(w.sess) + 1, key: key, short: short, cancel: cancel, fin: make(chan struct{})}
+	w.sess = append(w.sess, s)
+	w.mu.Lock()
+	w.holdGotq = true
+	w.mu.Unlock()
+	w.wg.Add(1)
+	go func() {
+		defer w.wg.Done()
+		defer close(s.fin)
+		_, _ = w.lk.Lock(ctx, key, ttl)
+	}()
+	ev, ok := w.wait(func(e c14Event) bool { return e.name == "lock.gotq" })
+	if !ok {
+		return s, "unexpected-" + ev.name
+	}
+	s.id, s.qid = ev.raw, ev.id
+	s.held = true
+	return s, "gotq"
+}
+
+// continueFromGotq lets it enqueue (possibly on another queue object, after a retry).
+func (w *c14World) continueFromGotq(s *c14Sess) string {
+	s.held = false
+	w.release(w.holds, s.qid)
+	ev, ok := w.wait(func(e c14Event) bool { return e.name == "lock.enq" && e.raw == s.id })
+	if !ok {
+		return "unexpected-" + ev.name
+	}
+	s.qid = ev.id
+	w.byID[s.qid] = s
+	w.byKey[s.key+"|"+s.id] = s
+	if ev, ok = w.waitFor("lock.select", s.qid); !ok {
+		return "unexpected-" + ev.name
+	}
+	ids, ready, _ := lock.VerifSnapshot(w.lk, s.key)
+	for i, id := range ids {
+		if id == s.id && ready[i] {
+			if ev, ok = w.waitFor("lock.acq", s.qid); !ok {
+				return "unexpected-" + ev.name
+			}
+			s.acquired = true
+			return "acq"
+		}
+	}
+	return "wait"
 }
 
 func (w *c14World) release(m map[string]chan struct{}, id string) bool {
@@ -380,12 +492,15 @@ func genC14(rng *rand.Rand, tier string, w *bufio.Writer) {
 		fmt.Fprintf(w, "case %d\nlock a long\nlock a long hold\nlock a long\ncancel 2\nunlock 1\ngo 2\nunlock 2\nunlock 3\n", 2+i)
 	}
 	fmt.Fprintln(w, "case 6\nlock a long\nlock a long hold\nlock a long\ncancel 2\ngo 2\nunlock 1\nlock b long hold\ncancel 4\nlock b long\ngo 4")
-	fmt.Fprintln(w, "case 7\ngwttl -3\ngwttl 1000\ngwttl 1250\ngwcancel")
-	for c := 8; c < cases; c++ {
+	fmt.Fprintln(w, "case 7\ngwttl -3\ngwttl 1000\ngwttl 2000\ngwcancel")
+	// ids issued on one key used on another: holder and waiter of b must be untouched by a's ids
+	fmt.Fprintln(w, "case 8\nlock a long\nlock b long\nlock b long\nlock a long\nunlockx 1 b\nunlockx 2 a\nunlock 1\nunlockx 4 b\nunlock 2\nunlock 3\nunlock 4")
+	for c := 9; c < cases; c++ {
 		fmt.Fprintf(w, "case %d\n", c)
 		n := 4 + rng.Intn(maxLen)
 		sessions := 0
 		var held, short, live []int // rough bookkeeping to keep most ops applicable (never exact)
+		keyOf := map[int]string{}
 		from := func(l []int) int {
 			if len(l) == 0 || rng.Intn(8) == 0 {
 				return 1 + rng.Intn(sessions)
@@ -404,10 +519,15 @@ func genC14(rng *rand.Rand, tier string, w *bufio.Writer) {
 		for i := 0; i < n; i++ {
 			r := rng.Intn(100)
 			key := "a"
-			if rng.Intn(6) == 0 {
+			if rng.Intn(3) == 0 {
 				key = "b"
 			}
+			other := map[string]string{"a": "b", "b": "a"}
 			switch {
+			case r >= 94 && r < 97 && len(live) > 0:
+				// a genuine id, on the wrong key
+				x := from(live)
+				fmt.Fprintf(w, "unlockx %d %s\n", x, other[keyOf[x]])
 			case r < 30 || sessions == 0:
 				ttl := "long"
 				sessions++
@@ -421,6 +541,7 @@ func genC14(rng *rand.Rand, tier string, w *bufio.Writer) {
 					held = append(held, sessions)
 				}
 				live = append(live, sessions)
+				keyOf[sessions] = key
 				fmt.Fprintf(w, "lock %s %s%s\n", key, ttl, hold)
 			case r < 56:
 				// bias towards the oldest live callers: they are the holders; sometimes stale ones
@@ -519,11 +640,11 @@ func runC14(in *bufio.Scanner, out *bufio.Writer) {
 				}
 			}
 			s.held = false
-			w.release(w.holds, s.id)
+			w.release(w.holds, s.qid)
 			res := "wait"
 			if granted || s.cancelled {
 				ev, ok := w.wait(func(e c14Event) bool {
-					return e.id == s.id && (e.name == "lock.acq" || e.name == "lock.cancel")
+					return e.id == s.qid && (e.name == "lock.acq" || e.name == "lock.cancel")
 				})
 				switch {
 				case !ok:
@@ -534,8 +655,8 @@ func runC14(in *bufio.Scanner, out *bufio.Writer) {
 				default:
 					res = "cancel"
 					s.gone = true
-					if ev, ok := w.waitFor("lock.rm", s.id); !ok {
-						res = "unexpected-" + ev.name
+					if !w.returned(s) {
+						res = "unexpected-timeout"
 					}
 					res += w.settle(s.key)
 				}
@@ -557,10 +678,8 @@ func runC14(in *bufio.Scanner, out *bufio.Writer) {
 			default:
 				s.gone = true
 				res = "removed"
-				if ev, ok := w.waitFor("lock.cancel", s.id); !ok {
-					res = "unexpected-" + ev.name
-				} else if ev, ok := w.waitFor("lock.rm", s.id); !ok {
-					res = "unexpected-" + ev.name
+				if !w.returned(s) {
+					res = "unexpected-timeout"
 				}
 				res += w.settle(s.key)
 			}
@@ -571,14 +690,30 @@ func runC14(in *bufio.Scanner, out *bufio.Writer) {
 				fmt.Fprintln(out, "skip")
 				break
 			}
+			_, _, hadQueue := lock.VerifSnapshot(w.lk, s.key)
 			res := w.safeUnlock(s.key, s.id)
-			if res != "panic" {
-				if ev, ok := w.waitFor("lock.rm", s.id); !ok {
+			// (a key without a queue in the map is answered without a removal attempt: no hook event)
+			if res != "panic" && hadQueue {
+				if ev, ok := w.waitForRaw("lock.rm", s.id); !ok {
 					res = "unexpected-" + ev.name
 				}
 			}
 			res += w.settle(s.key)
 			fmt.Fprintf(out, "unlock %d %s %s\n", s.n, res, w.state(s.key))
+		case "unlockx":
+			// Unlock(K, id of S) where S locked a DIFFERENT key: a foreign id must name nobody on K
+			s := get(f, 1)
+			if s == nil || !s.acquired || len(f) != 3 || f[2] == s.key {
+				fmt.Fprintln(out, "skip")
+				break
+			}
+			res := w.safeUnlock(f[2], s.id)
+			if res == "ok" {
+				// accepted: the removal hook fired on key K's queue for whoever carries the same id there
+				w.wait(func(e c14Event) bool { return e.name == "lock.rm" && e.raw == s.id && e.id != s.qid })
+			}
+			res += w.settle(f[2])
+			fmt.Fprintf(out, "unlockx %d %s %s %s\n", s.n, f[2], res, w.state(f[2]))
 		case "unlockraw":
 			if len(f) != 3 {
 				fmt.Fprintln(out, "bad-op")
@@ -595,17 +730,17 @@ func runC14(in *bufio.Scanner, out *bufio.Writer) {
 			res := "noop"
 			if w.inQueue(s) {
 				res = "removed"
-				if _, ok := w.waitTTL(s.id); !ok {
+				if _, ok := w.waitTTL(s.qid); !ok {
 					res = "unexpected-timeout"
 				} else {
-					w.release(w.ttlWait, s.id)
-					if ev, ok := w.waitFor("lock.rm", s.id); !ok {
+					w.release(w.ttlWait, s.qid)
+					if ev, ok := w.waitFor("lock.rm", s.qid); !ok {
 						res = "unexpected-" + ev.name
 					}
 				}
 				res += w.settle(s.key)
 			} else {
-				w.release(w.ttlWait, s.id)
+				w.release(w.ttlWait, s.qid)
 			}
 			fmt.Fprintf(out, "expire %d %s %s\n", s.n, res, w.state(s.key))
 		case "gwttl", "gwcancel":
@@ -645,25 +780,26 @@ func c14Gateway(f []string, install func(*c14World)) string {
 		if err != nil || resp == nil {
 			return "gwttl " + f[1] + " lock-error"
 		}
-		acq, ok := w.waitFor("lock.acq", resp.LockID)
+		acq, ok := w.waitForRaw("lock.acq", resp.LockID)
 		if !ok {
 			return "gwttl " + f[1] + " no-acq"
 		}
-		fired, ok := w.waitTTL(resp.LockID)
+		fired, ok := w.waitTTL(acq.id)
 		if !ok {
 			return "gwttl " + f[1] + " eff=gt4000"
 		}
-		w.release(w.ttlWait, resp.LockID)
-		w.waitFor("lock.rm", resp.LockID)
+		w.release(w.ttlWait, acq.id)
+		w.waitFor("lock.rm", acq.id)
 		ms := fired.Sub(acq.at).Milliseconds()
-		return fmt.Sprintf("gwttl %s eff=%d", f[1], (ms+125)/250*250)
+		// whole seconds, rounded down: the timer can only fire late, and up to 999 ms of lag are tolerated
+		return fmt.Sprintf("gwttl %s eff=%d", f[1], ms/1000*1000)
 	case "gwcancel":
 		key := fmt.Sprintf("gwcancel-%d", time.Now().UnixNano())
 		first, err := gw.Lock(context.Background(), &hydrapb.LockRequest{Key: key, TTL: 60000})
 		if err != nil {
 			return "gwcancel lock-error"
 		}
-		w.waitFor("lock.acq", first.LockID)
+		w.waitForRaw("lock.acq", first.LockID)
 		ctx, cancel := context.WithCancel(context.Background())
 		type res struct {
 			id  string
@@ -678,7 +814,7 @@ func c14Gateway(f []string, install func(*c14World)) string {
 			}
 			done <- res{id, err}
 		}()
-		enq, ok := w.wait(func(e c14Event) bool { return e.name == "lock.enq" && e.id != first.LockID })
+		enq, ok := w.wait(func(e c14Event) bool { return e.name == "lock.enq" && e.raw != first.LockID })
 		if !ok {
 			return "gwcancel no-enq"
 		}
@@ -686,12 +822,7 @@ func c14Gateway(f []string, install func(*c14World)) string {
 		cancel()
 		// a cancellable wait would leave through the ctx.Done branch now
 		kept := "kept"
-		if ev, ok := func() (c14Event, bool) {
-			old := w.timeout
-			w.timeout = 150 * time.Millisecond
-			defer func() { w.timeout = old }()
-			return w.waitFor("lock.cancel", enq.id)
-		}(); ok && ev.name == "lock.cancel" {
+		if w.quiet(func(e c14Event) bool { return e.name == "lock.cancel" && e.id == enq.id }, 300*time.Millisecond) {
 			kept = "removed"
 		}
 		_, _ = gw.Unlock(context.Background(), &hydrapb.UnlockRequest{Key: key, LockID: first.LockID})
@@ -708,4 +839,144 @@ func c14Gateway(f []string, install func(*c14World)) string {
 		return "gwcancel " + kept + " " + out
 	}
 	return "bad-op"
+}
+
+// ---------------------------------------------------------------------------------------------
+// Domain C14s: stress + trace inclusion.  `gen` RUNS the real lock under genuine concurrency
+// (several goroutines locking two keys with cancellable contexts, short TTLs, stale and foreign
+// unlocks); the hooks `lock.enq` / `lock.rm` fire under the queue's own mutex, so the order in
+// which they are logged is the order in which the queue changed.  `run` answers `ok` to every log
+// line; the Lean driver (mode=trace) answers `ok` iff the model can take the same step with the
+// same observable values (granted on enqueue, found on remove, acquire only when granted).
+//
+// log:  enq K N G | acq K N | cancel K N | rm K N F | hang      (K: queue 0,1,…; N: caller number
+//       in order of enqueue over all keys; G/F: 0|1)
+
+func init() { Register("C14s", Domain{Gen: genC14s, Run: runC14s}) }
+
+func genC14s(rng *rand.Rand, tier string, w *bufio.Writer) {
+	rounds, gor, iters := 10, 6, 40
+	if tier == "thorough" {
+		rounds, gor, iters = 60, 10, 120
+	}
+	for r := 0; r < rounds; r++ {
+		var mu sync.Mutex
+		var log []string
+		queues := map[any]int{}
+		ids := map[string]int{}
+		lk := lock.New()
+		verifhook.SetHandler(func(name string, args ...any) {
+			if !strings.HasPrefix(name, "lock.") || len(args) < 2 {
+				return
+			}
+			if name != "lock.enq" && name != "lock.rm" && name != "lock.acq" && name != "lock.cancel" {
+				return
+			}
+			id, _ := args[1].(string)
+			mu.Lock()
+			defer mu.Unlock()
+			k, ok := queues[args[0]]
+			if !ok {
+				k = len(queues)
+				queues[args[0]] = k
+			}
+			key := fmt.Sprintf("%d|%s", k, id)
+			n, known := ids[key]
+			if name == "lock.enq" {
+				n = len(ids) + 1
+				ids[key] = n
+				known = true
+			}
+			if !known {
+				n = 0 // an id this queue never issued
+			}
+			flag := 0
+			if len(args) > 2 {
+				if b, _ := args[2].(bool); b {
+					flag = 1
+				}
+			}
+			switch name {
+			case "lock.enq":
+				log = append(log, fmt.Sprintf("enq %d %d %d", k, n, flag))
+			case "lock.rm":
+				log = append(log, fmt.Sprintf("rm %d %d %d", k, n, flag))
+			case "lock.acq":
+				log = append(log, fmt.Sprintf("acq %d %d", k, n))
+			case "lock.cancel":
+				log = append(log, fmt.Sprintf("cancel %d %d", k, n))
+			}
+		})
+		var wg sync.WaitGroup
+		for g := 0; g < gor; g++ {
+			wg.Add(1)
+			seed := rng.Int63()
+			go func(seed int64) {
+				defer wg.Done()
+				lr := rand.New(rand.NewSource(seed))
+				keys := []string{"a", "b"}
+				for i := 0; i < iters; i++ {
+					key := keys[lr.Intn(2)]
+					ctx, cancel := context.WithCancel(context.Background())
+					if lr.Intn(3) == 0 {
+						cancel()
+						ctx, cancel = context.WithTimeout(context.Background(), time.Duration(200+lr.Intn(2500))*time.Microsecond)
+					}
+					ttl := 5 * time.Second
+					short := lr.Intn(3) == 0
+					if short {
+						ttl = time.Duration(500+lr.Intn(2000)) * time.Microsecond
+					}
+					id, err := lk.Lock(ctx, key, ttl)
+					cancel()
+					if err != nil {
+						continue
+					}
+					if lr.Intn(2) == 0 {
+						time.Sleep(time.Duration(lr.Intn(800)) * time.Microsecond)
+					}
+					if !short || lr.Intn(2) == 0 {
+						_ = lk.Unlock(key, id)
+					} else {
+						time.Sleep(ttl + 200*time.Microsecond) // let the TTL release it
+					}
+					switch lr.Intn(6) {
+					case 0:
+						_ = lk.Unlock(key, id) // stale
+					case 1:
+						_ = lk.Unlock(keys[1-lr.Intn(2)], id) // maybe the other key: foreign
+					}
+				}
+			}(seed)
+		}
+		done := make(chan struct{})
+		go func() { wg.Wait(); close(done) }()
+		hung := false
+		select {
+		case <-done:
+		case <-time.After(20 * time.Second):
+			hung = true
+		}
+		time.Sleep(5 * time.Millisecond) // outstanding short-TTL watchdogs
+		verifhook.SetHandler(nil)
+		fmt.Fprintf(w, "case %d\n", r)
+		mu.Lock()
+		for _, l := range log {
+			fmt.Fprintln(w, l)
+		}
+		if hung {
+			fmt.Fprintln(w, "hang")
+		}
+		mu.Unlock()
+	}
+}
+
+func runC14s(in *bufio.Scanner, w *bufio.Writer) {
+	for in.Scan() {
+		if strings.HasPrefix(in.Text(), "case ") {
+			fmt.Fprintln(w, in.Text())
+		} else {
+			fmt.Fprintln(w, "ok")
+		}
+	}
 }
